@@ -29,6 +29,10 @@ Inductive fop :=
 | FWriteString (s : bytes)   (* _, err = io.WriteString(w, s); if err != nil { return err } *)
 | FFail (n : N).             (* return errN *)
 
+(* conditions of the control-flow statements: a Go boolean expression (oracle id), or "the switch tag (oracle id)
+   selects case k" *)
+Inductive cond := CBool (id : N) | CCase (id : N) (k : nat).
+
 (* programs of the shape the generator emits; a [list node] is a statement sequence in which every statement is
    followed by `if templ_7745c5c3_Err != nil { return ... }` *)
 Inductive node :=
@@ -39,7 +43,23 @@ Inductive node :=
 | Flush (children : list node)                  (* @templ.Flush() { children } *)
 | Raw (html : bytes) (e : option N)             (* templ.Raw(html, errs...) *)
 | Func (ops : list fop)                         (* a hand-written templ.ComponentFunc *)
-| Nop.                                          (* templ.NopComponent *)
+| Nop                                           (* templ.NopComponent *)
+| If (c : cond) (thn els : list node)           (* if c { thn } else { els }; `else if` is an If as the only statement of els *)
+| For (id : N) (body : list node).              (* for _, x := range expr { body }: the oracle gives the number of iterations,
+                                                   every oracle is asked with the enclosing iteration indices *)
+
+(* derived statements *)
+(* switch tag { case 0: c0; case 1: c1; ... default: d }: Go evaluates the tag once and takes the first matching case *)
+Fixpoint switch_from (id : N) (k : nat) (cases : list (list node)) (default : list node) : list node :=
+  match cases with
+  | [] => default
+  | c :: r => [If (CCase id k) c (switch_from id (S k) r default)]
+  end.
+Definition Switch (id : N) (cases : list (list node)) (default : list node) : node :=
+  If (CCase id 0) (match cases with c :: _ => c | [] => default end)
+     (match cases with _ :: r => switch_from id 1 r default | [] => default end).
+(* a boolean attribute `name?={ b }` / a conditional attribute `if b { name="v" }`: the literal is written iff b *)
+Definition CondLit (id : N) (s : bytes) : node := If (CBool id) [Lit s] [].
 
 (* a prefix of *)
 Definition prefix (a b : bytes) : Prop := exists t, b = a ++ t.
@@ -52,8 +72,12 @@ Fixpoint prefixb (a b : bytes) : bool :=
 
 Section Denote.
 Variable esc : bytes -> bytes.                 (* templ.EscapeString *)
-Variable env : N -> bytes * option N.          (* what each Go expression evaluates to: value and optional error *)
-Variable cancel : option N.                    (* ctx.Err() at the start of the render *)
+(* the environment: every oracle is asked with the indices of the enclosing loop iterations, innermost first *)
+Variable env : list nat -> N -> bytes * option N.   (* what each string expression evaluates to: value and optional error *)
+Variable benv : list nat -> N -> bool.              (* what each boolean expression evaluates to *)
+Variable senv : list nat -> N -> nat.               (* which case each switch tag selects *)
+Variable cnt : list nat -> N -> nat.                (* how many elements each ranged-over expression has *)
+Variable cancel : option N.                         (* ctx.Err() at the start of the render *)
 
 Notation dres := (bytes * option err)%type.
 
@@ -78,23 +102,32 @@ Definition denote_op (o : fop) : dres :=
   | FFail n => ([], Some (EComp n))
   end.
 
-Fixpoint denote (n : node) : dres :=
+Definition holds (path : list nat) (c : cond) : bool :=
+  match c with
+  | CBool id => benv path id
+  | CCase id k => Nat.eqb (senv path id) k
+  end.
+
+Fixpoint denote (n : node) (path : list nat) : dres :=
   match n with
   | Lit s => (s, None)
-  | Expr id f l c => match env id with
+  | Expr id f l c => match env path id with
                      | (v, None) => (esc v, None)
                      | (_, Some x) => ([], Some (ETempl f l c (EExpr x)))
                      end
   | Templ g body => if g then match cancel with
                               | Some c => ([], Some (ECtx c))
-                              | None => seq_d node denote body
+                              | None => seq_d node (fun x => denote x path) body
                               end
-                    else seq_d node denote body
-  | Join cs => seq_d node denote cs
-  | Flush ch => seq_d node denote ch
+                    else seq_d node (fun x => denote x path) body
+  | Join cs => seq_d node (fun x => denote x path) cs
+  | Flush ch => seq_d node (fun x => denote x path) ch
   | Raw h e => match e with Some x => ([], Some (EComp x)) | None => (h, None) end
   | Func ops => seq_d fop denote_op ops
   | Nop => ([], None)
+  | If c thn els => if holds path c then seq_d node (fun x => denote x path) thn
+                    else seq_d node (fun x => denote x path) els
+  | For id body => seq_d nat (fun k => seq_d node (fun x => denote x (k :: path)) body) (seq 0 (cnt path id))
   end.
 End Denote.
 
